@@ -352,6 +352,9 @@ func (m *Machine) havocLoc(c *Config, env *Env, loc string) {
 		}
 		cv, err := m.eval(env, e)
 		if err != nil {
+			if strings.Contains(err.Error(), " of nil") {
+				return // the holder of the map is a nil pointer at this call: there is no map to change
+			}
 			m.errs = append(m.errs, "assigns: "+err.Error())
 			return
 		}
